@@ -176,6 +176,22 @@ func ruleCtxArmIn(c *Ctx, r *R, onlyRel string) {
 		if onlyRel != "" && rootFn(fn).Pkg != c.SSA[onlyRel] {
 			continue
 		}
+		// an unexported helper that is only ever called from function literals (the bodies of background goroutines, which
+		// this rule does not look at either): its blocking operations are judged by the bg-cancellable rules
+		if !token.IsExported(fn.Name()) {
+			sites := callCommonsOf(c, fn)
+			onlyFromLiterals := len(sites) > 0
+			for _, f2 := range c.Funcs {
+				instrs(f2, func(b *ssa.BasicBlock, i int, in ssa.Instruction) {
+					if cc := callCommon(in); cc != nil && staticCallee(cc) != nil && origin(staticCallee(cc)) == origin(fn) && f2.Parent() == nil {
+						onlyFromLiterals = false
+					}
+				})
+			}
+			if onlyFromLiterals {
+				continue
+			}
+		}
 		name := c.nameOf(fn)
 		// calls that block without any way for the context to interrupt them: time.Sleep, or an in-module function that
 		// takes no context and blocks on a channel (f.Wait() inside f.WaitContext)
